@@ -111,7 +111,30 @@ func buildReqStruct(d ReqData) Req {
 	return r
 }
 
-// buildReq returns the request value: Req, *Req or nil.
+func buildNReqStruct(d ReqData) NReq {
+	n := d.Nest
+	r := NReq{Text: d.Text, Num: d.Num, Inner: buildSub(d.Inner)}
+	r.Mid = Mid{Title: n.Title, Rank: n.Rank, Leaf: Leaf{Notes: cloneMap(n.Notes), Pin: n.Pin}}
+	if n.Items != nil {
+		r.Mid.Leaf.Items = append([]string{}, n.Items...)
+	}
+	if n.Ptr != nil {
+		s := buildSub(*n.Ptr)
+		r.Mid.Leaf.Ptr = &s
+	}
+	if n.Subs != nil {
+		r.Mid.Leaf.Subs = make([]Sub, 0, len(n.Subs))
+		for _, s := range n.Subs {
+			r.Mid.Leaf.Subs = append(r.Mid.Leaf.Subs, buildSub(s))
+		}
+	}
+	for i := range n.Pair {
+		r.Pair[i] = buildSub(n.Pair[i])
+	}
+	return r
+}
+
+// buildReq returns the request value: Req, *Req, NReq, *NReq or nil.
 func buildReq(d ReqData) any {
 	switch d.Kind {
 	case reqValue:
@@ -119,17 +142,27 @@ func buildReq(d ReqData) any {
 	case reqPointer:
 		r := buildReqStruct(d)
 		return &r
+	case reqNestValue:
+		return buildNReqStruct(d)
+	case reqNestPointer:
+		r := buildNReqStruct(d)
+		return &r
 	}
 	return nil
 }
 
-// buildResp returns the response value: Resp, *Resp or nil.
+// buildResp returns the response value: Resp, *Resp, NResp, *NResp or nil.
 func buildResp(d ReqData) any {
 	switch d.Kind {
 	case reqValue:
 		return Resp(buildReqStruct(d))
 	case reqPointer:
 		r := Resp(buildReqStruct(d))
+		return &r
+	case reqNestValue:
+		return NResp(buildNReqStruct(d))
+	case reqNestPointer:
+		r := NResp(buildNReqStruct(d))
 		return &r
 	}
 	return nil
